@@ -18,7 +18,7 @@ from lib import coqrun
 VERIF = Path(__file__).resolve().parent.parent
 CORPUS = VERIF / 'corpus'
 
-COQ_TARGETS = ['theories/SchedCases.vo']
+COQ_TARGETS = ['theories/SchedCases.vo', 'theories/AsyncExecCases.vo', 'theories/AsyncExecFacts.vo']
 
 PROFILES = {
     'C01': ['mixed', 'order', 'countdown', 'store', 'mixed'],
@@ -36,6 +36,13 @@ ASSUMPTIONS = {p: [
     'user callables do not call the scheduler re-entrantly (as the property states)',
     'theorems hold for runs that do not exhaust the model fuel (fuel 400 in the correspondence)',
 ] for p in PROFILES}
+TRUSTED_EXTRA = {}
+try:
+    from harness import asyncexec as _ax
+    ASSUMPTIONS['C10'] = ASSUMPTIONS['C10'] + _ax.ASSUMPTIONS['C10']
+    TRUSTED_EXTRA['C10'] = list(_ax.TRUSTED_EXTRA['C10'])
+except ImportError:      # the layer is optional for the other properties of the group
+    pass
 
 RULES = {
     'C01': 'history non-trivial iff at least one callable started in it; distinct by (ops, observations) hash',
@@ -49,15 +56,23 @@ RULES = {
 
 def _impl_run(cases: list[dict], scratch: Path, tag: str, nofail: bool = False) -> list:
     """run the implementation in a subprocess (fresh interpreter, PYTHONPATH = /repo/src)"""
-    inp = scratch / f'impl_in_{tag}.json'
-    outp = scratch / f'impl_out_{tag}.json'
-    inp.write_text(json.dumps(cases))
-    env = {'PYTHONPATH': f'{coqrun.REPO}/src:{VERIF}', 'PYTHONHASHSEED': '0', 'PATH': '/usr/bin:/bin', 'TZ': 'UTC'}
-    r = subprocess.run(['/venv/bin/python', '-u', '-m', 'harness.sched_runner', str(inp), str(outp),
-                        '1' if nofail else '0'], cwd=VERIF, env=env, capture_output=True, text=True, timeout=900)
-    if r.returncode != 0:
-        raise RuntimeError('implementation runner failed: ' + r.stderr[-3000:])
-    return json.loads(outp.read_text())
+    # one subprocess per system time zone (a history may ask for a zone that is about to set its clocks back)
+    zones: dict[str, list[int]] = {}
+    for i, c in enumerate(cases):
+        zones.setdefault(c.get('tz', 'UTC'), []).append(i)
+    out: list = [None] * len(cases)
+    for zi, (tz, idx) in enumerate(sorted(zones.items())):
+        inp = scratch / f'impl_in_{tag}_{zi}.json'
+        outp = scratch / f'impl_out_{tag}_{zi}.json'
+        inp.write_text(json.dumps([cases[i] for i in idx]))
+        env = {'PYTHONPATH': f'{coqrun.REPO}/src:{VERIF}', 'PYTHONHASHSEED': '0', 'PATH': '/usr/bin:/bin', 'TZ': tz}
+        r = subprocess.run(['/venv/bin/python', '-u', '-m', 'harness.sched_runner', str(inp), str(outp),
+                            '1' if nofail else '0'], cwd=VERIF, env=env, capture_output=True, text=True, timeout=900)
+        if r.returncode != 0:
+            raise RuntimeError(f'implementation runner failed (TZ={tz}): ' + r.stderr[-3000:])
+        for i, res in zip(idx, json.loads(outp.read_text())):
+            out[i] = res
+    return out
 
 
 def _nontrivial(prop: str, case, obs, raised) -> bool:
@@ -101,20 +116,34 @@ def _corpus(prop: str) -> list[dict]:
     return out
 
 
-def _async_probe(seed: int, n: int) -> list:
-    """C10 / C08 through the real AsyncExecutor and task managers (oracle only; see harness/sched_async.py)"""
+PROBES = {'C10': ['async', 'handler'], 'C08': ['async'], 'C07': ['removeall'], 'C02': ['removeall']}
+
+
+def _async_probe(seed: int, n: int, which: str) -> list:
+    """scenario oracles of harness/sched_async.py: 'async' = C10 / C08 through the real AsyncExecutor and task
+    managers, 'handler' = C10 with an exception handler that reacts, 'removeall' = AsyncScheduler.remove_all()
+    against the history it is modelled as (SchedRemoveAll.v)"""
     env = {'PYTHONPATH': f'{coqrun.REPO}/src:{VERIF}', 'PYTHONHASHSEED': '0', 'PATH': '/usr/bin:/bin', 'TZ': 'UTC'}
-    r = subprocess.run(['/venv/bin/python', '-m', 'harness.sched_async', str(n), str(seed)], cwd=VERIF, env=env,
+    r = subprocess.run(['/venv/bin/python', '-m', 'harness.sched_async', str(n), str(seed), which], cwd=VERIF, env=env,
                        capture_output=True, text=True, timeout=600)
+    case = {'kind': 'scenario', 'which': which, 'seed': seed, 'n': n}
     if r.returncode != 0:
-        return [{'what': 'asynchronous-executor scenarios crashed: ' + r.stderr[-600:], 'case': {'kind': 'async', 'seed': seed}}]
-    return [{'what': w, 'case': {'kind': 'async', 'seed': seed}} for w in json.loads(r.stdout)]
+        return [{'what': f'{which} scenarios crashed: ' + r.stderr[-600:], 'case': case}]
+    return [{'what': w, 'case': case} for w in json.loads(r.stdout)]
 
 
 def run(prop: str, tier: str, seed: int, scratch: Path, replay=None, model_ok=True) -> dict:
     rng = random.Random(f'{prop}-{seed}')
     if replay:
         payload = json.loads(Path(replay).read_text())
+        if isinstance(payload.get('case'), dict) and payload['case'].get('kind') == 'scenario':
+            c = payload['case']
+            sv = _async_probe(c['seed'], c['n'], c['which'])
+            return {'evaluations': c['n'], 'distinct_nontrivial': c['n'], 'rule': 'scenario replay', 'samples': [c],
+                    'distribution': {}, 'corr_failures': [], 'spec_violations': sv, 'extra': {'replay': 'scenario'}}
+        if isinstance(payload.get('case'), dict) and 'mgr' in payload['case'] and 'evs' in payload['case']:
+            from harness import asyncexec      # a trace of the asynchronous-executor layer
+            return asyncexec.run(prop, tier, seed, scratch, replay=replay, model_ok=model_ok)
         histories = [payload['case']]
     else:
         n = COUNTS[tier]
@@ -145,8 +174,9 @@ def run(prop: str, tier: str, seed: int, scratch: Path, replay=None, model_ok=Tr
             spec_violations.append({'what': msg, 'op_index': k, 'case': ccase, 'observed': obs[k],
                                     'all': [m for _, m in bad[:5]]})
 
-    if prop in ('C10', 'C08') and not replay:
-        spec_violations += _async_probe(seed, 40 if tier == 'quick' else 400)
+    if not replay:
+        for which in PROBES.get(prop, []):
+            spec_violations += _async_probe(seed, 40 if tier == 'quick' else 400, which)
 
     # evaluate the model inside Coq on the same histories
     corr_failures = []
@@ -191,7 +221,7 @@ def run(prop: str, tier: str, seed: int, scratch: Path, replay=None, model_ok=Tr
                             'started': [e for o in obs for e in o['evs'] if e[0] == 'exec'][:6]})
             if len(samples) >= 2:
                 break
-    return {
+    res = {
         'evaluations': len(results), 'distinct_nontrivial': nontrivial, 'rule': RULES[prop], 'samples': samples,
         'corr_failures': corr_failures, 'spec_violations': spec_violations,
         'distribution': {'ops': dict(dist), 'outcomes': dict(outcomes), 'history_length': dict(lens),
@@ -200,6 +230,22 @@ def run(prop: str, tier: str, seed: int, scratch: Path, replay=None, model_ok=Tr
                   'compared_per_operation': 'outcome, enabled, timer.when(), queue order, status+next_run of every job, '
                                             'store keys, callable/callback/handler/trigger events'},
     }
+    if prop == 'C10' and not replay:
+        # the asynchronous executor path: AsyncExecutor on the real task managers against AsyncExec.v
+        from harness import asyncexec
+        sub = Path(scratch) / 'asyncexec'
+        sub.mkdir(exist_ok=True)
+        ax = asyncexec.run(prop, tier, seed, sub, replay=None, model_ok=model_ok)
+        res['evaluations'] += ax['evaluations']
+        res['distinct_nontrivial'] += ax['distinct_nontrivial']
+        res['corr_failures'] += [dict(c, layer='asyncexec') for c in ax['corr_failures']]
+        res['spec_violations'] += ax['spec_violations']
+        res['rule'] += ' | asynchronous executor traces: ' + ax['rule']
+        res['samples'] += ax['samples'][:1]
+        res['distribution']['asyncexec'] = ax['distribution']
+        res['extra']['asyncexec'] = dict(ax['extra'], evaluations=ax['evaluations'],
+                                         distinct_nontrivial=ax['distinct_nontrivial'])
+    return res
 
 
 def search(prop: str, seed: int, scratch: Path) -> list:
@@ -215,6 +261,11 @@ def search(prop: str, seed: int, scratch: Path) -> list:
         for k, msg in bad[:1]:
             out.append({'what': msg, 'op_index': k, 'case': ccase, 'observed': obs[k]})
     out.sort(key=lambda v: len(v['case']['ops']))
+    if prop == 'C10':
+        from harness import asyncexec
+        sub = Path(scratch) / 'asyncexec_search'
+        sub.mkdir(exist_ok=True)
+        out += asyncexec.search(prop, seed, sub)
     return out
 
 
@@ -231,8 +282,9 @@ def match_known(prop: str, v: dict, known: list) -> str | None:
                 if len(idx) >= 2 and all(any(e[0] == 'handler' and e[1] == ['prod', j] for e in evs[a:b])
                                          for a, b in zip(idx, idx[1:])):
                     return f['id']
-            if 'differs from the failure-free run' in v['what'] or 'exception handler received' in v['what']:
-                # consequences of the same defect in the same history
+            if 'differs from the failure-free run' in v['what']:
+                # consequence of the same defect in the same history (the handler bookkeeping - every raised
+                # exception handed over exactly once - is NOT part of the class: it holds under F5 too)
                 if any(e[0] == 'handler' and e[1][0] == 'prod' for ob in [o] for e in ob.get('evs', [])):
                     return f['id']
     return None
